@@ -795,3 +795,22 @@ def final_by_name(E, blt, opts, r):
 
 # ------------------------------------------------------------------ C18: renderings (separate module)
 from oracles_render import *
+
+
+def c17_report_header(E, blt, opts, r):
+    """C17: 'the report names unused and overridden options' -- the header of report() has an 'Unused options' line
+    iff options.unused() is non-empty and an 'Overridden options' line iff options.overrides() is non-empty, each
+    listing exactly those names (the lists themselves are decided by the options model and the precedence oracle)."""
+    if r['status'] != 'ok': return []
+    out = []
+    try:
+        rep = E.report()
+    except Exception as ex:
+        return ['c17-report-header: report() raised %s' % type(ex).__name__]
+    head = rep.split('\tBallots:', 1)[0]
+    for label, want in (('Unused options', list(E.options.unused())), ('Overridden options', list(E.options.overrides()))):
+        lines = [l.strip() for l in head.splitlines() if l.strip().startswith(label + ':')]
+        got = [x.strip() for x in lines[0][len(label) + 1:].split(',')] if lines else []
+        if len(lines) > 1 or sorted(got) != sorted(want):
+            out.append('c17-report-header: report says %s: %r, the options object says %r' % (label, got if lines else None, want))
+    return out
